@@ -13,26 +13,49 @@ theorem minInt64_eq : minInt64 = -(2 ^ 63) := by decide
 
 /-! ### currentWindow -/
 
-theorem currentWindow_of_nonneg {t r : Int} (ht : 0 ≤ t) : currentWindow t r = t - t % r + r - 1 := by
-  unfold currentWindow
-  rw [Int.tmod_eq_emod_of_nonneg ht]
+theorem minInt64_val : minInt64 = -9223372036854775808 := rfl
+theorem maxInt64_val : maxInt64 = 9223372036854775807 := rfl
 
-theorem currentWindow_ge {t r : Int} (ht : 0 ≤ t) (hr : 0 < r) : t ≤ currentWindow t r := by
-  rw [currentWindow_of_nonneg ht]
+/-- for a positive resolution `currentWindow` is the floored window end, for negative timestamps too -/
+theorem currentWindow_eq {t r : Int} (hr : 0 < r) : currentWindow t r = t - t % r + r - 1 := by
+  unfold currentWindow
+  have h := @Int.tmod_eq_emod t r
+  have hn : ((r.natAbs : Nat) : Int) = r := by omega
+  have h1 := Int.emod_nonneg t (show r ≠ 0 by omega)
+  have h2 := Int.emod_lt_of_pos t hr
+  by_cases hc : 0 ≤ t ∨ r ∣ t
+  · simp only [hc, if_true] at h
+    simp only [h]
+    have : ¬ (t % r - ((0 : Nat) : Int) < 0) := by omega
+    simp only [this, if_false]
+    omega
+  · simp only [hc, if_false] at h
+    simp only [h, hn]
+    have : t % r - r < 0 := by omega
+    simp only [this, if_true]
+    omega
+
+/-- before the repair: the truncating remainder puts −5 (resolution 50) into the window ending
+    at 49, the window of 3, instead of the window [−50, −1] -/
+theorem currentWindowTrunc_negative : currentWindowTrunc (-5) 50 = 49 ∧ currentWindow (-5) 50 = -1 ∧
+    currentWindowTrunc 3 50 = 49 := by decide
+
+theorem currentWindow_ge {t r : Int} (hr : 0 < r) : t ≤ currentWindow t r := by
+  rw [currentWindow_eq hr]
   have := Int.emod_lt_of_pos t hr
   omega
 
-theorem currentWindow_lt {t r : Int} (ht : 0 ≤ t) (hr : 0 < r) : currentWindow t r < t + r := by
-  rw [currentWindow_of_nonneg ht]
+theorem currentWindow_lt {t r : Int} (hr : 0 < r) : currentWindow t r < t + r := by
+  rw [currentWindow_eq hr]
   have := Int.emod_nonneg t (show r ≠ 0 by omega)
   omega
 
 theorem currentWindow_nonneg {t r : Int} (ht : 0 ≤ t) (hr : 0 < r) : 0 ≤ currentWindow t r :=
-  Int.le_trans ht (currentWindow_ge ht hr)
+  Int.le_trans ht (currentWindow_ge hr)
 
 /-- the window end is the last timestamp of its window: `(w + 1) % r = 0` -/
-theorem currentWindow_aligned {t r : Int} (ht : 0 ≤ t) (hr : 0 < r) : (currentWindow t r + 1) % r = 0 := by
-  rw [currentWindow_of_nonneg ht]
+theorem currentWindow_aligned {t r : Int} (hr : 0 < r) : (currentWindow t r + 1) % r = 0 := by
+  rw [currentWindow_eq hr]
   have h : t - t % r + r - 1 + 1 = r * (t / r) + r := by
     have := Int.emod_add_mul_ediv t r
     omega
@@ -40,9 +63,9 @@ theorem currentWindow_aligned {t r : Int} (ht : 0 ≤ t) (hr : 0 < r) : (current
   simp
 
 /-- two timestamps share a window iff they have the same quotient by `r` -/
-theorem currentWindow_eq_iff {s t r : Int} (hs : 0 ≤ s) (ht : 0 ≤ t) (hr : 0 < r) :
+theorem currentWindow_eq_iff {s t r : Int} (hr : 0 < r) :
     currentWindow s r = currentWindow t r ↔ s / r = t / r := by
-  rw [currentWindow_of_nonneg hs, currentWindow_of_nonneg ht]
+  rw [currentWindow_eq hr, currentWindow_eq hr]
   have h1 := Int.emod_add_mul_ediv s r
   have h2 := Int.emod_add_mul_ediv t r
   constructor
@@ -53,10 +76,9 @@ theorem currentWindow_eq_iff {s t r : Int} (hs : 0 ≤ s) (ht : 0 ≤ t) (hr : 0
     rw [h] at h1
     omega
 
-theorem currentWindow_mono {s t r : Int} (hs : 0 ≤ s) (hst : s ≤ t) (hr : 0 < r) :
+theorem currentWindow_mono {s t r : Int} (hst : s ≤ t) (hr : 0 < r) :
     currentWindow s r ≤ currentWindow t r := by
-  have ht : 0 ≤ t := Int.le_trans hs hst
-  rw [currentWindow_of_nonneg hs, currentWindow_of_nonneg ht]
+  rw [currentWindow_eq hr, currentWindow_eq hr]
   have h1 := Int.emod_add_mul_ediv s r
   have h2 := Int.emod_add_mul_ediv t r
   have h3 : s / r ≤ t / r := Int.ediv_le_ediv hr hst
@@ -64,19 +86,18 @@ theorem currentWindow_mono {s t r : Int} (hs : 0 ≤ s) (hst : s ≤ t) (hr : 0 
   omega
 
 /-- a later timestamp is beyond the window end iff it lies in a different window -/
-theorem gt_currentWindow_iff {s t r : Int} (hs : 0 ≤ s) (hst : s ≤ t) (hr : 0 < r) :
+theorem gt_currentWindow_iff {s t r : Int} (hst : s ≤ t) (hr : 0 < r) :
     t > currentWindow s r ↔ currentWindow t r ≠ currentWindow s r := by
-  have ht : 0 ≤ t := Int.le_trans hs hst
   constructor
   · intro h heq
-    have := currentWindow_ge ht hr
+    have := currentWindow_ge (t := t) hr
     omega
   · intro hne
-    have hmono := currentWindow_mono hs hst hr
+    have hmono := currentWindow_mono hst hr
     have hlt : currentWindow s r < currentWindow t r := by omega
     -- both are window ends: they differ by a multiple of r
-    rw [currentWindow_of_nonneg hs, currentWindow_of_nonneg ht] at hlt
-    rw [currentWindow_of_nonneg hs]
+    rw [currentWindow_eq hr, currentWindow_eq hr] at hlt
+    rw [currentWindow_eq hr]
     have h1 := Int.emod_add_mul_ediv s r
     have h2 := Int.emod_add_mul_ediv t r
     have h3 : s / r < t / r := by
@@ -140,8 +161,8 @@ theorem snap_next (hist cur : List Int) (v : Int) : (snap hist cur).reset.add v 
 
 /-- **downsampleBatch computes the per-window snapshots**: from a state that stands for the
     window ending at `w` with samples `cur`, the loop emits exactly `specEmit` of the runs. -/
-theorem batchEmit_runsAux (r lastT : Int) (hr : 0 < r) (hl : 0 ≤ lastT) :
-    ∀ (rest cur : List Pt) (hist : List Int) (w t0 : Int), cur ≠ [] → 0 ≤ t0 → w = currentWindow t0 r →
+theorem batchEmit_runsAux (r lastT : Int) (hr : 0 < r) (hl : minInt64 < lastT) :
+    ∀ (rest cur : List Pt) (hist : List Int) (w t0 : Int), cur ≠ [] → minInt64 < t0 → w = currentWindow t0 r →
       (∀ p ∈ rest, t0 ≤ p.1 ∧ p.1 ≤ lastT) → rest.Pairwise (fun a b => a.1 ≤ b.1) →
       batchEmit r lastT rest (min w lastT) (snap hist (cur.map (·.2))) =
         specEmit lastT (runsAux r w cur rest) hist := by
@@ -160,12 +181,10 @@ theorem batchEmit_runsAux (r lastT : Int) (hr : 0 < r) (hl : 0 ≤ lastT) :
     obtain ⟨t, v⟩ := p
     have hpt := hb (t, v) (by simp)
     simp only at hpt
-    have ht : 0 ≤ t := Int.le_trans ht0 hpt.1
-    have hwn : 0 ≤ w := hw ▸ currentWindow_nonneg ht0 hr
-    have hne : min w lastT ≠ -1 := by
-      have : 0 ≤ min w lastT := by
-        simp only [Int.min_def]; split <;> assumption
-      omega
+    have ht : minInt64 < t := by omega
+    have hwn : t0 ≤ w := hw ▸ currentWindow_ge hr
+    have hne : min w lastT ≠ minInt64 := by
+      simp only [Int.min_def]; split <;> omega
     have hrest : ∀ q ∈ rest, t ≤ q.1 ∧ q.1 ≤ lastT := by
       intro q hq
       have h1 := (List.pairwise_cons.mp hs).1 q hq
@@ -173,7 +192,7 @@ theorem batchEmit_runsAux (r lastT : Int) (hr : 0 < r) (hl : 0 ≤ lastT) :
     have hs' := (List.pairwise_cons.mp hs).2
     -- the loop's test and the window test agree
     have htest : t > min w lastT ↔ currentWindow t r ≠ w := by
-      rw [hw, ← gt_currentWindow_iff ht0 hpt.1 hr]
+      rw [hw, ← gt_currentWindow_iff hpt.1 hr]
       simp only [Int.min_def]
       split <;> omega
     unfold batchEmit runsAux
@@ -304,18 +323,18 @@ theorem snap_counter (hist cur : List Int) (h : hist ++ cur ≠ []) :
 /-! ### downsampleBatch as a whole -/
 
 theorem batchNextT_last (r lastT : Int) (hr : 0 < r) : ∀ (rest : List Pt) (nextT : Int) (v : Int),
-    nextT ≤ lastT → 0 ≤ lastT → rest.getLast? = some (lastT, v) → batchNextT r lastT rest nextT = lastT := by
+    nextT ≤ lastT → rest.getLast? = some (lastT, v) → batchNextT r lastT rest nextT = lastT := by
   intro rest
   induction rest with
-  | nil => intro _ _ _ _ h; simp at h
+  | nil => intro _ _ _ h; simp at h
   | cons p rest ih =>
-    intro nextT v hle h0 hlast
+    intro nextT v hle hlast
     obtain ⟨t, x⟩ := p
     cases rest with
     | nil =>
       simp at hlast
       obtain ⟨rfl, rfl⟩ := hlast
-      have := currentWindow_ge h0 hr
+      have := currentWindow_ge (t := t) hr
       simp only [batchNextT, Int.min_def]
       split
       · split <;> omega
@@ -324,20 +343,20 @@ theorem batchNextT_last (r lastT : Int) (hr : 0 < r) : ∀ (rest : List Pt) (nex
       rw [List.getLast?_cons_cons] at hlast
       simp only [batchNextT]
       split
-      · exact ih _ v (by simp only [Int.min_def]; split <;> omega) h0 hlast
-      · exact ih _ v hle h0 hlast
+      · exact ih _ v (by simp only [Int.min_def]; split <;> omega) hlast
+      · exact ih _ v hle hlast
 
 /-- **downsampleBatch on a time-ordered batch**: one snapshot per window run, emitted at the
     window end (the last run: at the batch's last timestamp), and the returned `nextT` is the
     batch's last timestamp. -/
 theorem downsampleBatch_runs (r : Int) (hr : 0 < r) (data : List Pt) (lastT lv : Int)
-    (hlast : data.getLast? = some (lastT, lv)) (h0 : ∀ p ∈ data, 0 ≤ p.1)
+    (hlast : data.getLast? = some (lastT, lv)) (h0 : ∀ p ∈ data, minInt64 < p.1)
     (hs : data.Pairwise (fun a b => a.1 ≤ b.1)) :
     downsampleBatch data r = some (specEmit lastT (runs r data) [], lastT) := by
   have hmem : (lastT, lv) ∈ data := by
     obtain ⟨ys, rfl⟩ := List.getLast?_eq_some_iff.mp hlast
     simp
-  have hl0 : 0 ≤ lastT := h0 _ hmem
+  have hl0 : minInt64 < lastT := h0 _ hmem
   have hle : ∀ p ∈ data, p.1 ≤ lastT := by
     obtain ⟨ys, rfl⟩ := List.getLast?_eq_some_iff.mp hlast
     intro p hp
@@ -348,13 +367,13 @@ theorem downsampleBatch_runs (r : Int) (hr : 0 < r) (data : List Pt) (lastT lv :
   unfold downsampleBatch
   rw [hlast]
   simp only
-  rw [batchNextT_last r lastT hr data (-1) lv (by omega) hl0 hlast]
+  rw [batchNextT_last r lastT hr data minInt64 lv (by omega) hlast]
   cases data with
   | nil => simp at hlast
   | cons p rest =>
     obtain ⟨t, v⟩ := p
-    have ht : 0 ≤ t := h0 (t, v) (by simp)
-    have hgt : t > -1 := by omega
+    have ht : minInt64 < t := h0 (t, v) (by simp)
+    have hgt : t > minInt64 := ht
     have hrest : ∀ q ∈ rest, t ≤ q.1 ∧ q.1 ≤ lastT := fun q hq =>
       ⟨(List.pairwise_cons.mp hs).1 q hq, hle q (List.mem_cons_of_mem _ hq)⟩
     have := batchEmit_runsAux r lastT hr hl0 rest [(t, v)] [] (currentWindow t r) t (by simp) ht rfl hrest
@@ -424,51 +443,50 @@ theorem runs_window (r : Int) (l : List Pt) : ∀ g ∈ runs r l, ∀ p ∈ g.2,
     refine runsAux_window r rest [q] _ ?_
     intro p hp; simp at hp; rw [hp]
 
-theorem runsAux_keys_ge (r : Int) (hr : 0 < r) : ∀ (rest cur : List Pt) (w t0 : Int), 0 ≤ t0 → w = currentWindow t0 r →
+theorem runsAux_keys_ge (r : Int) (hr : 0 < r) : ∀ (rest cur : List Pt) (w t0 : Int), w = currentWindow t0 r →
     (∀ p ∈ rest, t0 ≤ p.1) → rest.Pairwise (fun a b => a.1 ≤ b.1) → ∀ g ∈ runsAux r w cur rest, w ≤ g.1
-  | [], cur, w, t0, _, _, _, _, g, hg => by
+  | [], cur, w, t0, _, _, _, g, hg => by
     simp [runsAux] at hg; rw [hg]; exact Int.le_refl _
-  | q :: rest, cur, w, t0, h0, hw, hb, hs, g, hg => by
+  | q :: rest, cur, w, t0, hw, hb, hs, g, hg => by
     unfold runsAux at hg
     have hq := hb q (by simp)
     have hs' := (List.pairwise_cons.mp hs).2
     split at hg
-    · exact runsAux_keys_ge r hr rest _ w t0 h0 hw (fun p hp => hb p (List.mem_cons_of_mem _ hp)) hs' g hg
+    · exact runsAux_keys_ge r hr rest _ w t0 hw (fun p hp => hb p (List.mem_cons_of_mem _ hp)) hs' g hg
     · rcases List.mem_cons.mp hg with h | h
       · rw [h]; exact Int.le_refl _
-      · have hmono : w ≤ currentWindow q.1 r := hw ▸ currentWindow_mono h0 hq hr
-        have := runsAux_keys_ge r hr rest [q] _ q.1 (Int.le_trans h0 hq) rfl
+      · have hmono : w ≤ currentWindow q.1 r := hw ▸ currentWindow_mono hq hr
+        have := runsAux_keys_ge r hr rest [q] _ q.1 rfl
           (fun p hp => (List.pairwise_cons.mp hs).1 p hp) hs' g h
         omega
 
-theorem runsAux_keys_sorted (r : Int) (hr : 0 < r) : ∀ (rest cur : List Pt) (w t0 : Int), 0 ≤ t0 → w = currentWindow t0 r →
+theorem runsAux_keys_sorted (r : Int) (hr : 0 < r) : ∀ (rest cur : List Pt) (w t0 : Int), w = currentWindow t0 r →
     (∀ p ∈ rest, t0 ≤ p.1) → rest.Pairwise (fun a b => a.1 ≤ b.1) →
     (runsAux r w cur rest).Pairwise (fun a b => a.1 < b.1)
-  | [], cur, w, t0, _, _, _, _ => by simp [runsAux]
-  | q :: rest, cur, w, t0, h0, hw, hb, hs => by
+  | [], cur, w, t0, _, _, _ => by simp [runsAux]
+  | q :: rest, cur, w, t0, hw, hb, hs => by
     unfold runsAux
     have hq := hb q (by simp)
     have hs' := (List.pairwise_cons.mp hs).2
     split
-    · exact runsAux_keys_sorted r hr rest _ w t0 h0 hw (fun p hp => hb p (List.mem_cons_of_mem _ hp)) hs'
+    · exact runsAux_keys_sorted r hr rest _ w t0 hw (fun p hp => hb p (List.mem_cons_of_mem _ hp)) hs'
     · rename_i hne
-      have hq0 : 0 ≤ q.1 := Int.le_trans h0 hq
       have hrest : ∀ p ∈ rest, q.1 ≤ p.1 := fun p hp => (List.pairwise_cons.mp hs).1 p hp
       rw [List.pairwise_cons]
-      refine ⟨?_, runsAux_keys_sorted r hr rest [q] _ q.1 hq0 rfl hrest hs'⟩
+      refine ⟨?_, runsAux_keys_sorted r hr rest [q] _ q.1 rfl hrest hs'⟩
       intro g hg
-      have hmono : w ≤ currentWindow q.1 r := hw ▸ currentWindow_mono h0 hq hr
-      have := runsAux_keys_ge r hr rest [q] _ q.1 hq0 rfl hrest hs' g hg
+      have hmono : w ≤ currentWindow q.1 r := hw ▸ currentWindow_mono hq hr
+      have := runsAux_keys_ge r hr rest [q] _ q.1 rfl hrest hs' g hg
       simp only
       omega
 
 /-- for time-ordered samples the windows of the runs strictly increase: every window occurs once -/
-theorem runs_keys_sorted (r : Int) (hr : 0 < r) (l : List Pt) (h0 : ∀ p ∈ l, 0 ≤ p.1)
+theorem runs_keys_sorted (r : Int) (hr : 0 < r) (l : List Pt)
     (hs : l.Pairwise (fun a b => a.1 ≤ b.1)) : (runs r l).Pairwise (fun a b => a.1 < b.1) := by
   cases l with
   | nil => simp [runs]
   | cons q rest =>
-    exact runsAux_keys_sorted r hr rest [q] _ q.1 (h0 q (by simp)) rfl
+    exact runsAux_keys_sorted r hr rest [q] _ q.1 rfl
       (fun p hp => (List.pairwise_cons.mp hs).1 p hp) (List.pairwise_cons.mp hs).2
 
 /-- a partition into groups with pairwise different keys, every element carrying the key of its
@@ -505,11 +523,11 @@ theorem filter_flatMap_key (key : Pt → Int) : ∀ (gs : List (Int × List Pt))
 
 /-- **runs = grouping by window**: for time-ordered samples, the run with window end `w` consists
     of exactly the samples whose window ends at `w` -/
-theorem runs_eq_filter (r : Int) (hr : 0 < r) (l : List Pt) (h0 : ∀ p ∈ l, 0 ≤ p.1)
+theorem runs_eq_filter (r : Int) (hr : 0 < r) (l : List Pt)
     (hs : l.Pairwise (fun a b => a.1 ≤ b.1)) :
     ∀ g ∈ runs r l, g.2 = l.filter (fun p => currentWindow p.1 r = g.1) := by
   intro g hg
-  have hk := runs_keys_sorted r hr l h0 hs
+  have hk := runs_keys_sorted r hr l hs
   have := filter_flatMap_key (fun p => currentWindow p.1 r) (runs r l)
     (hk.imp (fun h => by omega)) (runs_window r l) g hg
   rw [runs_flatten] at this
